@@ -223,7 +223,7 @@ func RunReorgSync(p ReorgSyncPlan, res *Result) {
 	for addr, l := range w.Liars {
 		told := false
 		for bh := range l.Told {
-			if n := g.ByHash[bh]; n != nil && final.Ancestor(n.Height) == n {
+			if n := g.Lookup(bh); n != nil && final.Ancestor(n.Height) == n {
 				told = true
 			}
 		}
